@@ -13,14 +13,33 @@ MED = {1: 10, 2: 20}
 BASE = wire.attr(0x40, 1, b'\x00') + wire.attr(0x40, 2, wire.as_path((65002,), True))
 
 
+# how the two attribute sets of the model differ: by MED (default) or only by the next hop (every other history) - the next
+# hop is a path attribute of the route like any other, for the multiprotocol families it travels inside MP_REACH_NLRI
+NHMODE = False
+NH4 = {1: b'\x0a\x00\x00\x02', 2: b'\x0a\x00\x00\x03'}
+NH4S = {1: '10.0.0.2', 2: '10.0.0.3'}
+
+
 def med_attr(a):
-    return wire.attr(0x80, 4, struct.pack('!I', MED[a]))
+    return wire.attr(0x80, 4, struct.pack('!I', MED[1 if NHMODE else a]))
+
+
+def med_of(a):
+    return MED[1 if NHMODE else a]
+
+
+def nh_of(a):
+    return NH4[a if NHMODE else 1]
+
+
+def nhs_of(a):
+    return NH4S[a if NHMODE else 1]
 
 
 def peer_update(f, wd, nl, a):
     """octets of the UPDATE a peer would send (harness-side encoder, independent of yabgp)"""
     if f == 'ipv4':
-        attrs = (BASE + wire.attr(0x40, 3, b'\x0a\x00\x00\x02') + med_attr(a)) if nl else b''
+        attrs = (BASE + wire.attr(0x40, 3, nh_of(a)) + med_attr(a)) if nl else b''
         return wire.update(withdrawn=b''.join(wire.prefix4(P[k][0], P[k][1]) for k in wd), attrs=attrs,
                            nlri=b''.join(wire.prefix4(P[k][0], P[k][1]) for k in nl))
     if f == 'flowspec':
@@ -32,7 +51,7 @@ def peer_update(f, wd, nl, a):
             return out
         un = wire.attr(0x80, 15, struct.pack('!HB', 1, 133) + rules(wd)) if wd else b''
         if nl:
-            return wire.update(attrs=BASE + med_attr(a) + wire.attr(0x80, 14, struct.pack('!HBB', 1, 133, 0) + b'\x00' + rules(nl)) + un)
+            return wire.update(attrs=BASE + med_attr(a) + wire.attr(0x80, 14, (struct.pack('!HBB', 1, 133, 4) + nh_of(a) if NHMODE else struct.pack('!HBB', 1, 133, 0)) + b'\x00' + rules(nl)) + un)
         return wire.update(attrs=un)
 
     def routes(ks, withdraw):
@@ -42,25 +61,25 @@ def peer_update(f, wd, nl, a):
         return out
     un = wire.attr(0x80, 15, struct.pack('!HB', 1, 128) + routes(wd, True)) if wd else b''
     if nl:
-        v = struct.pack('!HBB', 1, 128, 12) + b'\x00' * 8 + b'\x02\x02\x02\x02' + b'\x00' + routes(nl, False)
+        v = struct.pack('!HBB', 1, 128, 12) + b'\x00' * 8 + (nh_of(a) if NHMODE else b'\x02\x02\x02\x02') + b'\x00' + routes(nl, False)
         return wire.update(attrs=BASE + med_attr(a) + wire.attr(0x80, 14, v) + un)
     return wire.update(attrs=un)
 
 
 def rest_body(f, wd, nl, a):
     if f == 'ipv4':
-        attr = {'1': 0, '2': [], '3': '10.0.0.1', '4': MED[a]} if nl else {}
+        attr = {'1': 0, '2': [], '3': ('10.0.0.1' if not NHMODE else {1: '10.0.0.1', 2: '10.0.0.4'}[a]), '4': med_of(a)} if nl else {}
         return {'attr': attr, 'nlri': [P[k][2] for k in nl], 'withdraw': [P[k][2] for k in wd]}
     if f == 'flowspec':
         at = {}
         if nl:
-            at = {'1': 0, '2': [], '4': MED[a], '14': {'afi_safi': [1, 133], 'nexthop': '', 'nlri': [{'1': F[k][1]} for k in nl]}}
+            at = {'1': 0, '2': [], '4': med_of(a), '14': {'afi_safi': [1, 133], 'nexthop': (nhs_of(a) if NHMODE else ''), 'nlri': [{'1': F[k][1]} for k in nl]}}
         if wd:
             at['15'] = {'afi_safi': [1, 133], 'withdraw': [{'1': F[k][1]} for k in wd]}
         return {'attr': at}
     at = {}
     if nl:
-        at = {'1': 0, '2': [], '4': MED[a], '14': {'afi_safi': [1, 128], 'nexthop': {'rd': '0:0', 'str': '2.2.2.2'},
+        at = {'1': 0, '2': [], '4': med_of(a), '14': {'afi_safi': [1, 128], 'nexthop': {'rd': '0:0', 'str': (nhs_of(a) if NHMODE else '2.2.2.2')},
                                                    'nlri': [{'label': [25], 'rd': '100:100', 'prefix': V[k][1]} for k in nl]}}
     if wd:
         at['15'] = {'afi_safi': [1, 128], 'withdraw': [{'label': [25], 'rd': '100:100', 'prefix': V[k][1]} for k in wd]}
@@ -70,6 +89,9 @@ def rest_body(f, wd, nl, a):
 def attr_id(attr):
     if not attr:
         return 0
+    if NHMODE:
+        nh = attr.get(3, attr.get('3'))
+        return {'10.0.0.2': 1, '10.0.0.3': 2, '10.0.0.1': 1, '10.0.0.4': 2}.get(nh, 99)
     m = attr.get(4, attr.get('4'))
     for k, v in MED.items():
         if v == m:
@@ -133,6 +155,8 @@ class RibRun(object):
 
 
 def replay_walk(g, walk, tid):
+    global NHMODE
+    NHMODE = bool(tid % 2)
     run = RibRun()
     w = run.w
     lines = [{'tid': tid, 'i': 0, 'k': 'begin', 'd': '', 'f': '', 'shape': ''}]
